@@ -18,7 +18,7 @@ Definition accepted_pair (p : nat * nat * bool) : bool :=
 (* every pair of the traversal passes the local check or is an accepted difference *)
 Lemma textx_pairs :
   frame_ok lang_grammar tx_grammar textx_R = true /\
-  forallb (fun p => local_ok lang_grammar tx_grammar textx_ne textx_R p || accepted_pair p) textx_R = true.
+  forallb (fun p => local_ok lang_grammar tx_grammar textx_ne false [] textx_R p || accepted_pair p) textx_R = true.
 Proof. vm_compute. split; reflexivity. Qed.
 
 Theorem textx_modulo_accepted input orc :
